@@ -3,7 +3,6 @@ package server
 import (
 	"os"
 	"strings"
-	"sync"
 	"time"
 
 	"github.com/tidwall/gjson"
@@ -11,18 +10,6 @@ import (
 
 // C14: the sweeper deletes exactly the objects whose deadline has passed, each through a logged DEL,
 // and a deadline that was moved, removed or overwritten leaves no stale timer behind.
-
-func vhDeadline(s *Server, key, id string) (int64, bool) {
-	col, _ := s.cols.Get(key)
-	if col == nil {
-		return 0, false
-	}
-	o := col.Get(id)
-	if o == nil {
-		return 0, false
-	}
-	return o.Expires(), true
-}
 
 //verif:cfg b_objects=3 b_history=none|overwrite_later_EX|EXPIRE_later|EXPIRE_sooner|PERSIST|SET_without_EX|DEL|overwrite_other_id b_now=any_whole_second_from_3s_before_to_40s_after_the_first_deadline ignorego=1
 func VH_C14_sweeper() {
@@ -298,80 +285,3 @@ func VH_C14_hooks() {
 	vhCleanupShrink()
 }
 
-// VH_C07_expirer_atomic (C07 / C14): one pass of the background expirer (the REAL closure of backgroundExpiring)
-// against a client command on the same, already due, object - every interleaving at the lock operations.
-// Deciding that an object is due and deleting it is one indivisible step: the outcome is that of one of the
-// two serial orders, and the log records the two effects in the order they were applied.
-//verif:cfg use=c08 b_threads=expirer_pass+1_client_command b_client=SET_without_EX|PERSIST|EXPIRE_later|SET_EX_later|DEL|GET b_interleavings=all_at_lock_operations ignorego=1 ignoregothreads=1
-func VH_C07_expirer_atomic() {
-	s := vhServer()
-	s.mu = &vhBLock{}
-	if vnative() {
-		f, err := os.CreateTemp("", "verif-expirer-aof-*")
-		if err != nil {
-			panic(err)
-		}
-		s.aof = f
-	} else {
-		s.aof = new(os.File)
-	}
-	s.loadedAndReady.Store(true)
-	vhDo(s, "SET", "k", "a", "EX", "0", "POINT", "1", "2") // due at once
-	vhDo(s, "SET", "k", "keep", "POINT", "3", "4")
-	cmds := [][]string{
-		{"SET", "k", "a", "POINT", "5", "5"}, {"PERSIST", "k", "a"}, {"EXPIRE", "k", "a", "100"},
-		{"SET", "k", "a", "EX", "100", "POINT", "5", "5"}, {"DEL", "k", "a"}, {"GET", "k", "a"},
-	}
-	ci := vchoose(len(cmds))
-	cmd := cmds[ci]
-	s.aofbuf = nil
-	var reply string
-	client := func() {
-		cl := &Client{}
-		s.handleInputCommand(cl, &Message{Args: append([]string(nil), cmd...), ConnType: RESP, OutputType: RESP})
-		reply = string(cl.out)
-		if vnative() {
-			s.stopServer.Store(true)
-		}
-	}
-	if vnative() {
-		var wg sync.WaitGroup
-		wg.Add(1)
-		vspawn(func() { s.backgroundExpiring(&wg) })
-	} else {
-		vspawn(func() { vcallAnon("(*Server).backgroundExpiring", s) })
-	}
-	vspawn(client)
-	vrunThreads()
-	_, exists := vhDeadline(s, "k", "a")
-	dl, _ := vhDeadline(s, "k", "a")
-	log := string(s.aofbuf)
-	delAt := strings.Index(log, string(vhEncode("del", "k", "a")))
-	cmdAt := strings.Index(log, string(vhEncode(cmd...)))
-	vobs("expirer", ci, exists, dl != 0, delAt >= 0, cmdAt >= 0, reply)
-	switch ci {
-	case 0, 3:
-		// SET re-creates the object in either order: it exists afterwards (without / with the new deadline)
-		vassert("C07.K3.expirer_and_client_serialise", exists && (dl != 0) == (ci == 3))
-		vassert("C07.K3.log_order_is_application_order", cmdAt >= 0 && (delAt < 0 || delAt < cmdAt))
-	case 1, 2:
-		// PERSIST / EXPIRE: either the expirer came first (object gone, negative answer, nothing logged for the client)
-		// or the client came first (deadline cleared or moved: the expirer leaves the object alone)
-		if exists {
-			vassert("C07.K3.expirer_and_client_serialise", reply == ":1\r\n" && delAt < 0 && (dl != 0) == (ci == 2))
-		} else {
-			vassert("C07.K3.expirer_and_client_serialise", reply == ":0\r\n" && delAt >= 0 && cmdAt < 0)
-		}
-	case 4:
-		vassert("C07.K3.expirer_and_client_serialise", !exists && ((reply == ":1\r\n") != (delAt >= 0 && delAt < cmdAt || cmdAt < 0 && delAt >= 0)))
-	default:
-		vassert("C07.K3.expirer_and_client_serialise", !exists && delAt >= 0)
-	}
-	_, keep := vhDeadline(s, "k", "keep")
-	vassert("C07.K3.other_objects_untouched", keep)
-	if vnative() {
-		name := s.aof.Name()
-		s.aof.Close()
-		os.Remove(name)
-	}
-}
